@@ -19,6 +19,19 @@ def frac_to_float(x):
     return v
 
 
+def _no_target_config():
+    from dataclasses import dataclass
+    from typing import Optional
+
+    from mdpax.core.problem import ProblemConfig
+
+    @dataclass
+    class NoTargetConfig(ProblemConfig):
+        _target_: Optional[str] = None
+        note: str = "hand-made"
+    return NoTargetConfig()
+
+
 class TabularProblem(Problem):
     """spec keys: states/actions/events (lists of int vectors), nxt[s][a][e] (int),
     rew/prb[s][a][e] (str fractions), zidx (index assigned to vectors that are not states),
@@ -29,6 +42,9 @@ class TabularProblem(Problem):
         self.spec = spec
         self._dtype = dtype
         super().__init__()
+        if spec.get("config_kind") == "no_target":
+            # a user-defined problem that carries a configuration object from which it can NOT be rebuilt (no class path)
+            self.config = _no_target_config()
 
     @property
     def name(self):
